@@ -143,6 +143,12 @@ func (w *World) checkLoopNest(m *scoreModel, ln *loopNest, add func(ok bool, rul
 				return true
 			})
 			okBody, whyBody := p.checkSeverityDistance(sfd, sevVar)
+			if !okBody {
+				// not the recognised shape: tabulate the function over every row of the order table
+				if ok2, why2, decided := p.severityDistanceByTabulation(sfd, sevVar); decided {
+					okBody, whyBody = ok2, why2
+				}
+			}
 			add(okBody, "R04.sev", "severityDistance.body", sfd, whyBody)
 		}
 	}
@@ -500,4 +506,55 @@ func rankByTabulation(p *Pkg, fd *ast.FuncDecl) (bool, string) {
 		}
 	}
 	return true, ""
+}
+
+// severityDistanceByTabulation: for every row of the severity-order table and
+// every pair of its members, the function must return position(value) −
+// position(max). Evaluated by the fragment evaluator (finite, complete over
+// the table).
+func (p *Pkg) severityDistanceByTabulation(fd *ast.FuncDecl, sevVar *types.Var) (ok bool, why string, decided bool) {
+	if sevVar == nil || fd == nil || fd.Body == nil {
+		return false, "", false
+	}
+	init := p.pkgVarInit(sevVar)
+	if init == nil || p.pkgVarWritten(sevVar) {
+		return false, "", false
+	}
+	tbl, okT := p.listValue(init)
+	if !okT || (tbl.K != VList && tbl.K != VMap) {
+		return false, "", false
+	}
+	if len(paramObjs(p.Info, fd)) != 3 {
+		return false, "", false
+	}
+	n := 0
+	for mi, row := range tbl.T {
+		if row.K != VList {
+			continue
+		}
+		for i, vi := range row.T {
+			for j, vj := range row.T {
+				ce := newCEnv(p, nil)
+				ce.loops = true
+				v, err := ce.callFunc(fd, []Val{vInt(int64(mi)), vi, vj}, fd)
+				if err != nil {
+					if _, isPanic := err.(*panicked); isPanic {
+						return false, fmt.Sprintf("severity distance panics for row %d, values (%s, %s)", mi, vi, vj), true
+					}
+					return false, "", false
+				}
+				if v.K != VInt && v.K != VRat {
+					return false, "", false
+				}
+				if toRat(v).Cmp(big.NewRat(int64(i-j), 1)) != 0 {
+					return false, fmt.Sprintf("for row %d the distance of (%s, %s) is %s, expected position difference %d", mi, vi, vj, v, i-j), true
+				}
+				n++
+			}
+		}
+	}
+	if n == 0 {
+		return false, "", false
+	}
+	return true, fmt.Sprintf("distance = position(value) − position(max) in the metric's row: tabulated over all %d (row, value, max) triples of the order table", n), true
 }
